@@ -971,6 +971,25 @@ sequence of `enter(ignore?)` / `exit(normal | exception)` events the flag is on 
 theorem switch_spec_holds_on_every_history (evs : List CtxEv) : ctxOk evs (Ctx.trace {} evs) = true :=
   trace_meets_ctxOk evs
 
+/-- **Validation is in force whenever execution is not inside a disable block** - the direction the property states, as
+the driver evaluates it on the implementation (`ctxInForce`): after every event of every history at which no block
+entered with `ignore = False` is open, the model's flag is on - also after blocks left through an exception. -/
+theorem switch_in_force_outside_blocks (evs : List CtxEv) : ctxInForce evs (Ctx.trace {} evs) = true :=
+  ctxOk_imp_ctxInForce evs _ (trace_meets_ctxOk evs)
+
+/-- the implementation-side clause is implied by the exact one: whatever observation satisfies `ctxOk` satisfies
+`ctxInForce` (the converse fails: see the example after the theorems) -/
+theorem exact_switch_implies_in_force (evs : List CtxEv) (flags : List Bool) (h : ctxOk evs flags = true) :
+    ctxInForce evs flags = true := ctxOk_imp_ctxInForce evs flags h
+
+/-- non-vacuity: the in-force clause separates observations.  `[enter, exit-by-exception]` with the flag off inside and
+still off afterwards (validation stays off after a block left through an exception) fails it; the same events with the
+flag *on* inside the block (a block that does not disable) pass it although they are not the model's exact behaviour. -/
+example : ctxInForce [.enter false, .exitExc] [false, false] = false ∧
+    ctxInForce [.enter false, .exitExc] [false, true] = true ∧
+    ctxInForce [.enter false, .exitExc] [true, true] = true ∧ ctxOk [.enter false, .exitExc] [true, true] = false ∧
+    ctxInForce [.enter true, .exitNormal] [false, true] = false := by decide
+
 /-- a view bound *inside* a disable block and used after it: validated (the bad value is refused, nothing changes); used
 inside the block: not validated (300 wraps to 44); the switch is on at the end although the last statement raised -/
 def demoTy : FTy := .arr .intArray (.int .i8) 3
